@@ -37,6 +37,21 @@ def make_chooser(seed, ctx):
         tot = p.sum()
         if len(supp) == 1 or p.max() / tot > 1 - 1e-9:
             return int(np.argmax(p))
+        follow = ctx.get("follow")
+        if follow is not None:
+            # follower twin: take the leader's outcome of the matching draw of this step (same length,
+            # same distribution up to what a legitimate contraction may change); extra draws that the
+            # leader did not make (near point masses) take the most probable outcome
+            lst = follow.get(ctx["sid"], [])
+            pn = p / tot
+            for item in lst:
+                if item.get("used") or item["n"] != n or item["p"] is None:
+                    continue
+                q = item["p"]
+                if len(q) == len(pn) and float(np.max(np.abs(q - pn))) < 1e-4 and p[item["idx"]] > 1e-12:
+                    item["used"] = True
+                    return int(item["idx"])
+            return int(np.argmax(p))
         k = ctx["nondeg"]
         ctx["nondeg"] += 1
         forced = ctx.get("forced")
@@ -141,7 +156,7 @@ def execute_run(
     """cfg: {seed, contraction, lib_seed, mode('forced'|'real'), ops{name:spec}, max_steps, forced{}}"""
     seed = int(cfg.get("seed", 0))
     reset_library(contraction=cfg.get("contraction", True), seed=cfg.get("lib_seed", 1))
-    ctx = {"sid": None, "nondeg": 0, "forced": cfg.get("forced")}
+    ctx = {"sid": None, "nondeg": 0, "forced": cfg.get("forced"), "follow": cfg.get("follow")}
     seams.reset(mode=cfg.get("mode", "forced"), chooser=make_chooser(seed, ctx))
     world = World()
     world.op_specs = cfg.get("ops", {})
